@@ -238,6 +238,7 @@ func initZZ() {
 		return ""
 	})
 	Z("MaxDecisions", func(fr *frame, a []value) value { fr.e.MaxForks = int(asInt64(a[0])); return nil })
+	Z("DeadlockIsViolation", func(fr *frame, a []value) value { fr.e.deadlockViolation = strArg(a[0]); return nil })
 	Z("UnwindIsViolation", func(fr *frame, a []value) value { fr.e.unwindViolation = strArg(a[0]); return nil })
 	Z("Steps", func(fr *frame, a []value) value { return int(fr.e.steps) })
 	Z("Stdout", func(fr *frame, a []value) value { return strings.Join(fr.e.stdout, "") })
